@@ -107,6 +107,16 @@ def _r6(ctx):
             readadd = f.kind == "store" and _reads_same_entry(simp(f.value), f.extra.get("base"), simp(f.index) if f.index else None)
             if readadd:
                 n += 1          # plays both roles: the accumulating write and the creating write
+            # try: T[e] += n  except KeyError: T[e] = n  -- the handler runs exactly when the entry is missing (the only subscript
+            # the guarded statement evaluates is the same entry of the same table)
+            if f.kind == "store" and not absent and any(c.startswith("('except'") and "KeyError" in c for c, _ in g):
+                tgt_txt = ast.unparse(f.node.targets[0]) if isinstance(f.node, ast.Assign) and len(f.node.targets) == 1 else None
+                for t in ast.walk(fn):
+                    if isinstance(t, ast.Try) and any(f.node in list(ast.walk(h)) for h in t.handlers) and tgt_txt is not None:
+                        subs = {ast.unparse(x) for b in t.body for x in ast.walk(b) if isinstance(x, ast.Subscript)}
+                        calls = [x for b in t.body for x in ast.walk(b) if isinstance(x, ast.Call)]
+                        if subs == {tgt_txt} and not calls and len(t.body) == 1:
+                            absent = True
             ok = (f.kind == "augstore" and getattr(f, "op", None) == "Add") or (f.kind == "store" and absent) or readadd
             if not ok and f.kind == "store":
                 # `try: T[e] += n` / `except KeyError: T[e] = n`: the handler runs exactly when the accumulating write found no entry
